@@ -3,6 +3,9 @@ import Juniper.Proofs.ParDoBasic
 counting backbone — every index handed out by the counter is in exactly one place (held by a worker
 that has not called `f` yet, begun, or skipped because of a cancelled context), every begun call is
 either running or ended. -/
+set_option linter.unusedSimpArgs false
+set_option linter.unusedVariables false
+
 namespace Juniper.Proofs.ParDo
 open Juniper.Gen Juniper.Model.ParDo
 
